@@ -456,6 +456,17 @@ def _binders(repo, rep):
                             src(n.targets[0]) == p.args[0].id:
                         arg = src(n.value)
             inherits = "self.scopes[-1]" in arg
+            fresh = arg.replace(" ", "") in (
+                "set(self.scopes[-1])", "self.scopes[-1].copy()",
+                "set(self.scopes[-1])|set()") or (
+                inherits and (arg.startswith("set(") or
+                              arg.endswith(".copy()") or " | " in arg))
+            rep.check(not inherits or fresh, "R04.6", m.qualname,
+                      "the scope opened by visit_%s is a *copy* of the "
+                      "enclosing one (names bound inside must not leak into "
+                      "the enclosing scope)" % b,
+                      construct="shared-scope:" + b, where=L.where(m),
+                      detail="self.scopes.append(%s)" % arg)
             rep.check(inherits, "R04.6", m.qualname,
                       "the scope opened by visit_%s inherits the enclosing "
                       "scope (nested binders see outer parameters)" % b,
